@@ -96,7 +96,7 @@ class C11(Check):
             cases.append(spec)
         hs = {k: rng.randrange(1, 1 << 31) for k in ('B', 'L1', 'L2', 'L3', 'D')}
         return {'cases': cases, 'hashseeds': hs, 'gens': rng.choice([1, 2, 2, 3]), 'standalone': rng.random() < 0.8,
-                'cli': rng.choice([False, False, 'plain', 'compress']), 'warm': rng.random() < 0.5}
+                'cli': rng.choice([False, False, 'plain', 'compress']), 'warm': rng.random() < 0.5, 'decoy': rng.random() < 0.5}
 
     def execute(self, plan, forced=None):
         out = Outcome()
@@ -123,7 +123,8 @@ class C11(Check):
             return tr['t']
         def cli_ok(case):
             o = case['options']
-            return plan.get('cli') and not case.get('user') and 'g_regex_flags' not in o and not o.get('strict')
+            # only options the command line can express (anything else would make the generated module a parser for other options)
+            return plan.get('cli') and not case.get('user') and set(o) <= {'parser', 'lexer', 'start', 'keep_all_tokens', 'propagate_positions', 'maybe_placeholders', 'use_bytes', 'regex'}
         cli = {c['name']: bool(cli_ok(c)) for c in plan['cases']}
         tB = run('B', [{'do': 'build', 'cfg': c, 'standalone': plan['standalone'], 'cli': cli[c], 'compress_cli': plan.get('cli') == 'compress', 'warm': plan.get('warm', False)} for c in cfgs])
         if tB is None:
@@ -133,10 +134,10 @@ class C11(Check):
             steps.append({'do': 'load', 'cfg': c, 'gen': 1, 'resave': gens >= 2, 'warm': plan.get('warm', True)})
             steps.append({'do': 'cache', 'cfg': c})
             if plan['standalone']:
-                steps.append({'do': 'standalone', 'cfg': c})
-                steps.append({'do': 'standalone_compressed', 'cfg': c})
+                steps.append({'do': 'standalone', 'cfg': c, 'decoy': plan.get('decoy')})
+                steps.append({'do': 'standalone_compressed', 'cfg': c, 'decoy': plan.get('decoy')})
             if cli[c]:
-                steps.append({'do': 'standalone_cli', 'cfg': c})
+                steps.append({'do': 'standalone_cli', 'cfg': c, 'decoy': plan.get('decoy')})
         tL1 = run('L1', steps)
         tD = run('D', [{'do': 'direct', 'cfg': c} for c in cfgs])
         if tL1 is None or tD is None:
